@@ -7,22 +7,31 @@ PROP = dict(
     required_theorems=["Comdex.C08.totalLend_eq", "Comdex.C08.totalLend_eq_partial", "Comdex.C08.totalLend_handover_counterexample",
                        "Comdex.C08.totalBorrowed_eq", "Comdex.C08.totalStable_eq",
                        "Comdex.C08.borrow_respects_ltv", "Comdex.C08.draw_respects_ltv", "Comdex.C08.borrow_msg_cases",
-                       "Comdex.C08.ltv_exact", "Comdex.C08.interpool_borrow_respects_transit_ltv",
+                       "Comdex.C08.ltv_exact", "Comdex.C08.borrow_accepted_ltv_exact", "Comdex.C08.draw_accepted_ltv_exact",
+                       "Comdex.C08.ltv_exact_tight", "Comdex.C08.interpool_borrow_respects_transit_ltv", "Comdex.C08.interpool_borrow_ltv_exact",
                        "Comdex.C08.borrow_respects_ltv_pledged",
                        "Comdex.C08.borrow_requires_pool_funds", "Comdex.C08.draw_requires_pool_funds",
-                       "Comdex.C08.withdraw_never_releases_pledged", "Comdex.C08.closeLend_never_releases_pledged"],
+                       "Comdex.C08.withdraw_never_releases_pledged", "Comdex.C08.closeLend_never_releases_pledged",
+                       "Comdex.C08.repay_split", "Comdex.C08.closeBorrow_split",
+                       "Comdex.C08.accrual_split", "Comdex.C08.accrual_zero_elapsed", "Comdex.C08.reward_tracker_conserved", "Comdex.C08.reward_source",
+                       "Comdex.C08.rejected_no_change", "Comdex.C08.killswitch_rejects_lend_ops", "Comdex.C08.killswitch_rejects_borrow_ops",
+                       "Comdex.C08.guards_reject_new_positions", "Comdex.C08.guards_reject_borrow", "Comdex.C08.depreciation_rejects"],
     harness_tests=["TestC08"],
-    monitors=["total_lend", "total_lend_orphaned", "total_borrowed", "total_stable", "ltv", "pool_funds", "pledged_safe"],
+    monitors=["total_lend", "total_lend_orphaned", "total_borrowed", "total_stable", "ltv", "ltv_exact", "pool_funds", "pledged_safe"],
     trusted_base=[KERNEL_TB, HARNESS_TB, DEC_TB,
                   "Model/Lend.lean is hand-written from x/lend/keeper/{keeper,funds,rates,iter}.go and x/liquidationsV2/keeper/liquidate.go:360-404; "
                   "tied by delivering generated messages to the real app (ValidateBasic + MsgServiceRouter handler on a cache context) and comparing "
                   "outcome, every lend / borrow record, every pool-asset total and every tracked balance after every message",
-                  "external inputs printed by the harness from the real keeper: the whole-token lend reward of IterateLends and the increments of "
-                  "IterateBorrow (their own laws are property C18); the theorems quantify over all such values",
+                  "external inputs printed by the harness from the real keeper: the RATES each accrual uses (borrow APR, reserve rate, lend APR; "
+                  "and the creation-time indices / stable rate of a new position, which are rates too) — their laws are property C18. The "
+                  "AMOUNTS (interest, reserve share, whole-token reward), the global indices, interaction times and the reward tracker are "
+                  "recomputed by Model/LendAccrual.lean (index arithmetic of C18's Model/LendRates.lean) and compared bit for bit with the "
+                  "real records after every message; the ledger theorems still quantify over all amounts",
                   "bank module (x/bank), protobuf (de)serialisation and the KV store are exercised, not modelled; the model's bank is an association list",
                   "the liquidation DECISION (which borrow is handed over, C09) and the auction that follows are not modelled: only the effect of "
                   "UpdateLockedBorrows on the lending books"],
-    assumptions=["ESM kill switch off, no pool depreciated (the harness never enables them; both are guards in front of every handler)",
+    assumptions=[
+                 "ESM kill switch and pool depreciation are modelled as state and guards (toggled by the harness); their governance paths are not",
                  "amounts below 2^63 and Dec values below the 315-bit overflow limit (harness amounts are below 10^14)",
                  "static configuration (assets, rates params, pools, pairs) over a history; oracle prices may change between messages",
                  "denominations are in one-to-one correspondence with asset ids"],
@@ -42,7 +51,10 @@ META = dict(
          "and every history of user messages the published total lent equals the sum over lend positions of availableToBorrow plus collateral "
          "pledged to borrows not handed over to liquidation; total borrowed / stable borrowed equal the principal sums (hand-overs included); "
          "an accepted borrow or draw has Dec ratio <= LTV (with an exact-rational corollary) and is covered by the pool's balance; withdraw / "
-         "close never exceed availableToBorrow and never change a borrow record. One defect of the real code is reproduced and carried as a "
+         "close never exceed availableToBorrow and never change a borrow record; the LTV decision is also stated exactly over the integers with "
+         "half an ulp of slack per rounding (ExactLtv, scales, tight witness, cross-pool bridged chain); every repayment splits into reserve "
+         "share + lender share + principal + at most one token of dust; the accrual bookkeeping (amounts from rates, indices, reward tracker) is "
+         "in the model and loses nothing; kill switch / depreciated pool reject every guarded message without change. One defect of the real code is reproduced and carried as a "
          "kernel-checked counterexample and known finding D19: a liquidation hand-over deletes a lend position that still has availableToBorrow "
          "(total lent no longer matches). A second one (BorrowAsset accepted a pair registered for another asset of the pool, valuing the pledged "
          "cTokens at the wrong price) was found by this check and is repaired in the tree; the model carries the guard and a regression example.",
